@@ -115,6 +115,32 @@ def checkC12 (toks : List String) (res : String) : Option Verdict :=
       let t : Int := if q < 0 then -((-q).floor) else q.floor
       if a.inRange t then some (res == showNum (L, t)) else none
     some { model := m, spec := spec, branch := "asge/" ++ toks[1]! ++ (if ea != eb then "/mixed" else "/same"), nontrivial := spec.isSome }
+  | ["ince", kind, tl, l] => do
+    -- ++ / -- on a scaled nest with any exponent and radix: `x op= 1` (the built-in 1 has exponent 0), the
+    -- expression returns the new (prefix) or old (postfix) value.  Oracle: the exact `x ± 1` at x's resolution
+    -- (truncated toward zero when 1 is below the resolution) whenever the intermediate is exact.
+    let L ← parseTy tl; let l ← l.toInt?
+    let a ← innerTy L
+    let isInc := kind == "pre+" || kind == "post+"
+    let isPre := kind == "pre+" || kind == "pre-"
+    let op : BinOp := if isInc then .add else .sub
+    let ea : Int := match L with | .sc _ e _ => e | _ => 0
+    let ρ : Nat := radixOf L
+    let p2 (e : Int) : Rat := if e ≥ 0 then (ρ : Rat) ^ e.toNat else 1 / ((ρ : Rat) ^ (-e).toNat)
+    let one : Num := (.int i32, 1)
+    let m : Res (Num × Num) := do
+      let n ← Layered.compound op (L, l) one
+      pure (n, if isPre then n else (L, l))
+    let showPair (p : Num × Num) : String := showNum p.1 ++ "|" ++ showNum p.2
+    let spec : Option Bool := do
+      let v : Rat := (l : Rat) * p2 ea + (if isInc then 1 else -1)
+      let w ← match Layered.bin op (L, l) one with | .ok w => some w | _ => none
+      let ew : Int := match w.1 with | .sc _ e _ => e | _ => 0
+      if (w.2 : Rat) * p2 ew != v then none else
+      let q : Rat := v / p2 ea
+      let t : Int := if q < 0 then -((-q).floor) else q.floor
+      if a.inRange t then some (res == showNum (L, t) ++ "|" ++ showNum (L, if isPre then t else l)) else none
+    some { model := showRes showPair m, spec := spec, branch := "ince/" ++ kind, nontrivial := spec.isSome }
   | ["bine", op, tl, tr, l, r] => do
     -- binary operators between scaled nests with different exponents.  Oracle 1: the same expression on
     -- scaled_integer over the bare built-in representations (the model's built-in branch), re-wrapped.
